@@ -44,15 +44,17 @@ open OxiVerif.Spec.Syntax (Obj)
 
 /-! ## operator order -/
 
-/-- no image is drawn (through `Page::draw_image`) while the text buffer holds operators -/
-def orderSafe (gs : GS) (tf : Option Col) (pend : Bool) : List DOp → Bool
+abbrev Eff := GS → Option Col → DOp → Ctx × GS × Option Col × List XOp
+
+/-- no operator is pushed past the flushes (context `.img`) while the text buffer holds operators -/
+def orderSafeWith (eff : Eff) (gs : GS) (tf : Option Col) (pend : Bool) : List DOp → Bool
   | [] => true
   | op :: r =>
-    let e := opEffect gs tf op
+    let e := eff gs tf op
     match e.1 with
-    | .gfx => orderSafe e.2.1 e.2.2.1 false r
-    | .txt => orderSafe e.2.1 e.2.2.1 true r
-    | .img => (!pend || e.2.2.2.isEmpty) && orderSafe e.2.1 e.2.2.1 pend r
+    | .gfx => orderSafeWith eff e.2.1 e.2.2.1 false r
+    | .txt => orderSafeWith eff e.2.1 e.2.2.1 true r
+    | .img => (!pend || e.2.2.2.isEmpty) && orderSafeWith eff e.2.1 e.2.2.1 pend r
 
 def flat (b : Bufs) : List XOp := b.page ++ b.gfx ++ b.txt
 
@@ -64,18 +66,24 @@ theorem flat_push (b : Bufs) (c : Ctx) (ops : List XOp)
   | txt => simp [flat, pushOps]
   | img => rcases h2 rfl with h | h <;> simp [flat, pushOps, h]
 
-theorem runOps_flat (ops : List DOp) : ∀ (gs : GS) (tf : Option Col) (b : Bufs) (pend : Bool),
-    (b.gfx = [] ∨ b.txt = []) → (pend = false → b.txt = []) → orderSafe gs tf pend ops = true →
-    flat (runOps gs tf b ops) = flat b ++ callOps gs tf ops := by
+/-- buffer invariant "graphics tail or text tail is empty", for any assignment of contexts `eff`
+    that pushes the same operators and makes the same state changes as `opEffect` -/
+theorem runOpsWith_flat (eff : Eff) (hE : ∀ gs tf op, (eff gs tf op).2 = (opEffect gs tf op).2)
+    (ops : List DOp) : ∀ (gs : GS) (tf : Option Col) (b : Bufs) (pend : Bool),
+    (b.gfx = [] ∨ b.txt = []) → (pend = false → b.txt = []) → orderSafeWith eff gs tf pend ops = true →
+    flat (runOpsWith eff gs tf b ops) = flat b ++ callOps gs tf ops := by
   induction ops with
-  | nil => intro gs tf b pend _ _ _; simp [runOps, callOps]
+  | nil => intro gs tf b pend _ _ _; simp [runOpsWith, callOps]
   | cons op r ih =>
     intro gs tf b pend h1 h2 hs
-    simp only [runOps, callOps]
-    simp only [orderSafe] at hs
-    generalize he : opEffect gs tf op = e at hs ⊢
+    simp only [runOpsWith, callOps]
+    simp only [orderSafeWith] at hs
+    have hq := hE gs tf op
+    generalize he : eff gs tf op = e at hs hq ⊢
     obtain ⟨c, gs', tf', xs⟩ := e
-    simp only at hs ⊢
+    simp only at hs hq ⊢
+    rw [← hq]
+    simp only
     cases c with
     | gfx =>
       rw [ih gs' tf' _ false (by simp [pushOps]) (by simp [pushOps]) hs,
@@ -96,25 +104,64 @@ theorem runOps_flat (ops : List DOp) : ∀ (gs : GS) (tf : Option Col) (b : Bufs
           (by intro hp; simpa [pushOps] using h2 hp) hs.2,
         flat_push b .img xs h1 (fun _ => hx), List.append_assoc]
 
-/-- PARTIAL (hypothesis `orderSafe`): the operators `generate_content` serialises are the
-    operators of the authoring calls in CALL order. -/
-theorem C02_emit_is_call_order_partial (p : PageD) (h : orderSafe {} none false p.ops = true) :
-    emitOps p = specOps p := by
-  have := runOps_flat p.ops {} none {} false (Or.inl rfl) (fun _ => rfl) h
-  simpa [emitOps, specOps, flat] using this
+/-- the only call that bypasses the flushes is `set_rotation`, which pushes nothing -/
+theorem opEffect_img_empty (gs : GS) (tf : Option Col) (op : DOp)
+    (h : (opEffect gs tf op).1 = .img) : (opEffect gs tf op).2.2.2 = [] := by
+  cases op <;> simp_all [opEffect]
 
-/-- non-vacuity: path, text, then graphics again, image BEFORE any text -/
-example : orderSafe {} none false
+theorem orderSafe_all (ops : List DOp) : ∀ (gs : GS) (tf : Option Col) (pend : Bool),
+    orderSafeWith opEffect gs tf pend ops = true := by
+  induction ops with
+  | nil => intro _ _ _; rfl
+  | cons op r ih =>
+    intro gs tf pend
+    simp only [orderSafeWith]
+    have h := opEffect_img_empty gs tf op
+    generalize opEffect gs tf op = e at h ⊢
+    obtain ⟨c, gs', tf', xs⟩ := e
+    cases c with
+    | gfx => exact ih _ _ _
+    | txt => exact ih _ _ _
+    | img =>
+      simp only at h ⊢
+      simp [h trivial, ih]
+
+/-- FULL STRENGTH (since the repair of C02-F3 in /repo): for every page, whatever the sequence of
+    authoring calls, the operators `generate_content` serialises are the operators of the calls
+    in CALL order. -/
+theorem C02_emit_is_call_order (p : PageD) : emitOps p = specOps p := by
+  have := runOpsWith_flat opEffect (fun _ _ _ => rfl) p.ops {} none {} false (Or.inl rfl)
+    (fun _ => rfl) (orderSafe_all p.ops {} none false)
+  simpa [emitOps, specOps, flat, runOps] using this
+
+/-- non-vacuity: text, image, graphics, text again -/
+example : emitOps ⟨[49], [49], [.text 0 [49, 50] [49] [50] [65], .image [73] ⟨true, 1, 1, [0]⟩ [49] [50] [51] [52],
+    .moveTo [49] [50], .text 1 [57] [49] [50] [66]]⟩ =
+    specOps ⟨[49], [49], [.text 0 [49, 50] [49] [50] [65], .image [73] ⟨true, 1, 1, [0]⟩ [49] [50] [51] [52],
+    .moveTo [49] [50], .text 1 [57] [49] [50] [66]]⟩ := C02_emit_is_call_order _
+
+theorem opEffectOld_snd (gs : GS) (tf : Option Col) (op : DOp) :
+    (opEffectOld gs tf op).2 = (opEffect gs tf op).2 := by
+  cases op <;> rfl
+
+/-- the code BEFORE the repair: call order only under the hypothesis that no image is drawn while
+    text is pending -/
+theorem C02_old_emit_is_call_order_partial (p : PageD)
+    (h : orderSafeWith opEffectOld {} none false p.ops = true) : emitOpsOld p = specOps p := by
+  have := runOpsWith_flat opEffectOld opEffectOld_snd p.ops {} none {} false (Or.inl rfl) (fun _ => rfl) h
+  simpa [emitOpsOld, specOps, flat] using this
+
+example : orderSafeWith opEffectOld {} none false
     [.image [73] ⟨true, 1, 1, [0]⟩ [49] [50] [51] [52], .moveTo [49] [50], .fillColor (.rgb [49] [48] [48]),
      .text 0 [49, 50] [49] [50] [72, 105], .lineTo [51] [52], .stroke] = true := by decide
 
-/-- counter-witness to the FULL statement: text, then an image — the image's `q cm Do Q` is
-    emitted before the text's `BT … ET` -/
+/-- the regression the check must catch (C02-F3, the code before the repair): text, then an image —
+    the image's `q cm Do Q` was emitted before the text's `BT … ET` -/
 theorem C02_witness_image_after_text :
     let p : PageD := ⟨[49, 48, 48], [49, 48, 48],
       [.text 0 [49, 50] [49] [50] [65], .image [73, 109] ⟨true, 1, 1, [0]⟩ [49] [50] [51] [52]]⟩
-    emitOps p ≠ specOps p ∧
-    emitOps p = [.plain [113], .num [99, 109] 2 [[51], [48], [48], [52], [49], [50]], .xobj [73, 109], .plain [81],
+    emitOpsOld p ≠ specOps p ∧
+    emitOpsOld p = [.plain [113], .num [99, 109] 2 [[51], [48], [48], [52], [49], [50]], .xobj [73, 109], .plain [81],
                  .plain [66, 84], .font (fontName 0) [49, 50], .num [103] 3 [[48]], .num [84, 100] 2 [[49], [50]],
                  .showText [65], .plain [69, 84]] := by
   decide
@@ -132,24 +179,31 @@ theorem perm_push (b : Bufs) (c : Ctx) (ops : List XOp) :
     simp only [flat, pushOps, List.append_assoc]
     refine List.Perm.append_left _ (List.Perm.append_left _ List.perm_append_comm)
 
-theorem runOps_perm (ops : List DOp) : ∀ (gs : GS) (tf : Option Col) (b : Bufs),
-    (flat (runOps gs tf b ops)).Perm (flat b ++ callOps gs tf ops) := by
+theorem runOpsWith_perm (eff : Eff) (hE : ∀ gs tf op, (eff gs tf op).2 = (opEffect gs tf op).2)
+    (ops : List DOp) : ∀ (gs : GS) (tf : Option Col) (b : Bufs),
+    (flat (runOpsWith eff gs tf b ops)).Perm (flat b ++ callOps gs tf ops) := by
   induction ops with
-  | nil => intro gs tf b; simp [runOps, callOps]
+  | nil => intro gs tf b; simp [runOpsWith, callOps]
   | cons op r ih =>
     intro gs tf b
-    simp only [runOps, callOps]
+    simp only [runOpsWith, callOps]
+    have hq := hE gs tf op
+    generalize eff gs tf op = e at hq ⊢
+    obtain ⟨c, gs', tf', xs⟩ := e
+    simp only at hq ⊢
+    rw [← hq]
+    simp only
     refine (ih _ _ _).trans ?_
     rw [← List.append_assoc]
     exact List.Perm.append_right _ (perm_push b _ _)
 
-/-- for EVERY page: the emitted operators are a permutation of the call-order operators — the
-    reordering of `C02_witness_image_after_text` never loses or duplicates an operator -/
-theorem C02_emit_perm_call_order (p : PageD) : (emitOps p).Perm (specOps p) := by
-  have := runOps_perm p.ops {} none {}
-  simpa [emitOps, specOps, flat] using this
+/-- even before the repair no operator was lost or duplicated: the old emitted sequence is a
+    permutation of the call-order sequence, for every page -/
+theorem C02_old_emit_perm_call_order (p : PageD) : (emitOpsOld p).Perm (specOps p) := by
+  have := runOpsWith_perm opEffectOld opEffectOld_snd p.ops {} none {}
+  simpa [emitOpsOld, specOps, flat] using this
 
-example : (emitOps ⟨[49], [49], [.text 0 [49, 50] [49] [50] [65], .image [73] ⟨true, 1, 1, [0]⟩ [49] [50] [51] [52]]⟩).length = 10 := by
+example : (emitOpsOld ⟨[49], [49], [.text 0 [49, 50] [49] [50] [65], .image [73] ⟨true, 1, 1, [0]⟩ [49] [50] [51] [52]]⟩).length = 10 := by
   decide
 
 /-! ## page tree -/
